@@ -91,8 +91,15 @@ def realism_axioms(terms):
     return ax
 
 
-def realistic_model(pcs, extra, timeout_ms=4000):
-    """A model of pcs+extra that also satisfies the realism axioms, or None."""
+def realistic_model(pcs, extra, timeout_ms=4000, hints=None):
+    """A model of pcs+extra that also satisfies the realism axioms, or None.
+
+    hints: optional constraints tried first (a template that makes the string search easy); dropped when
+    they make the query unsatisfiable or undecided."""
+    if hints:
+        m = realistic_model(pcs, list(extra) + list(hints), timeout_ms=max(timeout_ms, 15000))
+        if m is not None:
+            return m
     ax = realism_axioms(list(pcs) + list(extra))
     s = z3.Solver()
     s.set("timeout", timeout_ms)
@@ -197,7 +204,7 @@ def run_task(task_name, harness, cfg_factory, repo=None, timeout_ms=10000, max_p
             res.solver_s += v.secs
             if v.status == "refuted":
                 g0 = z3.BoolVal(False) if isinstance(cond, bool) else _t(cond)
-                rm = realistic_model(pcs, [z3.Not(g0)])
+                rm = realistic_model(pcs, [z3.Not(g0)] + list(ctx.realism), hints=ctx.realism_hints)
                 if rm is not None:
                     v.model = rm
                 if v.model is not None:
@@ -239,7 +246,7 @@ def run_task(task_name, harness, cfg_factory, repo=None, timeout_ms=10000, max_p
             res.vcs.append(vc)
         if want_cover and outside is None:
             # reachability of the path: a model of the path condition (cover query)
-            rm = realistic_model(ctx.pc, [], timeout_ms=2000)
+            rm = realistic_model(ctx.pc, list(ctx.realism), timeout_ms=2000, hints=ctx.realism_hints)
             cov = {"path": pid, "decisions": len(ctx.decisions), "sat": "sat" if rm is not None else "no-realistic-model"}
             if rm is not None:
                 cov["inputs"] = model_inputs(rm, ctx)
